@@ -98,8 +98,8 @@ MANIFEST = dict(
          "goroutine runs judged by `admits`.",
     note="Trusted: Lean kernel, extractor, harness, Go runtime semantics of mutex/channel/select. Partial: messages still "
          "queued when a listener unregisters are lost for it (proved counter-example). Two defects found by the harness and "
-         "fixed in /repo: duplicate delivery when a listener re-registers during the iteration (6a5372c); out-of-order "
-         "delivery after leave+join through a second subscriber (a646ba6).",
+         "fixed in /repo: duplicate delivery when a listener re-registers during the iteration (58da40a); out-of-order "
+         "delivery after leave+join through a second subscriber (f4b47ff).",
     technique="Lean 4 proof (inductive invariants of a small-step model, all interleavings) + regenerated facts + "
               "differential correspondence / trace validation",
 )
